@@ -98,10 +98,10 @@ CLAIMED = {
          "C07_frontends: for EVERY 29-bit identifier and data bytes, every EByte packet (any flag bits, any padding), every USB packet (any type/reserved bytes, padding), every canboat line (either time-stamp form, any decimal spelling, hex tokens in any case, extra tokens), every Yacht Devices line (R/T, any hex case, leading zeros, trailing whitespace) and every Actisense line carrying that frame hands _decode the SAME tuple (pgn, priority, source, destination, reversed data) — so everything behind _decode is identical; C07_assembled: frame-by-frame delivery through any mix of the three frame-level formats reassembles (for any segmenter/reassembler pair that is inverse, instantiated by C03) to exactly what the pre-assembled formats hand over in one call; C07_assembled_fastpacket: the same with the library's own segmenter and reassembler (C03) and no abstract hypothesis left. END TO END (OblE2E.v, per run): E2E_all_formats - for every rendering of a frame in the five grammars an unfiltered decoder in any state returns the SAME message (PGN/id selected by the database rule, addressing, identity, spec_decode's fields), with whole-history correspondence of the composed model against the real decoder through all five entry points.",
          None, "DESIGN.md §5 C07"),
  "C10": ("Coq proof by induction over the call history (simulation between the filtered and the unfiltered decoder run: equal source maps, reassembly stores related by the numeric pre-filter) of a hand model of the repaired filter logic, for all configurations and all databases satisfying two checked hypotheses + kernel-evaluated history correspondence with the real decoder",
-         "Theorem C10: for EVERY filter configuration the constructor accepts (numbers, ids in any letter case, mixed, with/without the claim PGN, empty) and EVERY history, position by position the filtered decoder returns exactly the unfiltered decoder's message when its PGN is permitted (same message value) and nothing otherwise, and both decoders hold the same source map after every call (claims update it even when filtered).",
+         "Theorem C10: for EVERY filter configuration the constructor accepts (numbers, ids in any letter case, mixed, with/without the claim PGN, empty) and EVERY history, position by position the filtered decoder returns exactly the unfiltered decoder's message when its PGN is permitted (same message value) and nothing otherwise, and both decoders hold the same source map after every call (claims update it even when filtered). C10_for_this_code (tools/templates/OblC10.v, per run): the same statement for the decoders GENERATED in this tree - the database hypotheses (decode_pgn_N builds PGN N; id isoAddressClaim <-> 60928; 60928 single-frame) are decided by the kernel on the regenerated tables (C10_hypotheses_decidable) and the theorem is instantiated with the composed table decode function.",
          None, "DESIGN.md §5 C10"),
  "C11": ("Coq proof (invariant: source map = identity_after history, by induction over histories) of a hand model of the claim handling / manufacturer filter / discovery window + kernel-evaluated history correspondence with the real decoder",
-         "C11_identity (every returned message carries the identity decoded from the most recent decodable claim of its own source, or none), C11_srcmap (the map IS that specification after any history), C11_isolation (a call from one address never changes another address's entry, from any state), C11_manufacturer (a returned non-claim message of a claimed source passed the exclude/include lists case-insensitively; unknown manufacturer passes no include list), C11_discovery (network map on, inside the window: nothing but claims from an unclaimed source). The clock is an input bit per call (inside / outside the window).",
+         "C11_identity (every returned message carries the identity decoded from the most recent decodable claim of its own source, or none), C11_srcmap (the map IS that specification after any history), C11_isolation (a call from one address never changes another address's entry, from any state), C11_manufacturer (a returned non-claim message of a claimed source passed the exclude/include lists case-insensitively; unknown manufacturer passes no include list), C11_discovery (network map on, inside the window: nothing but claims from an unclaimed source). The clock is an input bit per call (inside / outside the window). C11_*_for_this_code (OblC10.v, per run): the same theorems instantiated with the regenerated tables, no database hypothesis left.",
          None, "DESIGN.md §5 C11"),
  "C12": ("Coq proof (induction over chunk lists and over runs of a labelled transition system of StreamReader + receive task + queue + consumer, with a delivery invariant and a progress measure) of a hand model + kernel-evaluated trace correspondence with the real clients on a virtual-time event loop; serial framing by C20_chunking",
          "C12_chunking_ebyte / _lines (packets cut out are independent of the segmentation), C12_chunking_any_schedule (and of the interleaving of arrivals, receive steps and callbacks), C12_delivery (in EVERY run the callback has been invoked on a prefix of the expected message list, rest queued in order: nothing else, nothing twice, nothing reordered, whatever callbacks return/raise/suspend; at quiescence exactly the list), C12_decode_error_skipped, C12_progress_enabled / _measure (delivery cannot get stuck), stability lemmas for readline/readexactly. The decoder is a universally quantified state-passing function. Waveshare framing: C20's theorems; its queue/consumer is the same model.",
